@@ -98,9 +98,9 @@ def r12_1(ctx: Ctx, rep: Report) -> None:
         for t, truth in p.atoms:
             if truth and isinstance(t, ast.Call) and isinstance(t.func, ast.Attribute) and t.func.attr == "startswith" and src(t.func.value) == "line":
                 skipped = t
-            elif truth and isinstance(t, ast.Name) and t.id in p.env:
-                # is_known = any(line.startswith(s) for s in known_skip) / line.startswith(tuple_of_prefixes)
-                rt = deep_resolve(t, p.env)
+            elif truth and (isinstance(t, ast.Name) and t.id in p.env or isinstance(t, ast.Call) and isinstance(t.func, ast.Name) and t.func.id == "any"):
+                # is_known = any(line.startswith(s) for s in known_skip) / line.startswith(tuple_of_prefixes); also as the test itself
+                rt = deep_resolve(t, p.env) if isinstance(t, ast.Name) else t
                 inner = rt
                 if isinstance(rt, ast.Call) and isinstance(rt.func, ast.Name) and rt.func.id == "any" and len(rt.args) == 1 and isinstance(rt.args[0], (ast.GeneratorExp, ast.ListComp)):
                     inner = rt.args[0].elt
